@@ -138,7 +138,7 @@ func body(c *vk.Ctx) {
 	for _, p := range []struct {
 		name string
 		f    func()
-	}{{"auth", k.partAuth}, {"faults", k.partFaults}, {"local", k.partLocal}, {"exchange", k.partExchange}, {"arrival", k.partArrival}} {
+	}{{"bigts", k.partBigTimestamps}, {"auth", k.partAuth}, {"faults", k.partFaults}, {"local", k.partLocal}, {"exchange", k.partExchange}, {"arrival", k.partArrival}} {
 		// C12_PARTS=auth,faults restricts a (debugging) run to some parts
 		if sel := os.Getenv("C12_PARTS"); sel != "" && !strings.Contains(","+sel+",", ","+p.name+",") {
 			continue
@@ -559,6 +559,58 @@ func (k *checker) runLocal(cs localCase) (key, what string) {
 		return "local/" + wh, fmt.Sprintf("after %s the store must hold %s: %s", stepsStr(cs.Steps), canon, detail)
 	}
 	return "", ""
+}
+
+// partBigTimestamps: timestamps are data chosen by the writer. Values stamped beyond 2^53 (a writer counting
+// nanoseconds, or simply a large number) cannot be held exactly by a float64: whatever the store does with them, the
+// index it maintains while running and the index a store re-opened on the same collection builds must advertise the
+// same elements and hash, and the head entry must be that hash.
+func (k *checker) partBigTimestamps() {
+	w, c := k.w, k.c
+	if c.Shard != 0 {
+		return
+	}
+	big := []int64{1<<53 + 1, 1<<53 + 3, 1_700_000_000_000_000_017, 1_700_000_000_000_000_529, 1<<62 + 5}
+	slots := slotsOf("W1", "W2")
+	for n := 1; n <= 2; n++ {
+		for i := 0; i+n <= len(big); i++ {
+			st := w.fresh("kvT")
+			var batch []*spacesyncproto.StoreKeyValue
+			var desc []string
+			for j := 0; j < n; j++ {
+				v := slots[j%len(slots)]
+				v.T = 1
+				in := w.inner(v)
+				in.TimestampMicro = big[i+j]
+				batch = append(batch, w.seal(in, w.slotId(v.Key, v.Dev), w.devKey[v.Dev], w.sim.Acc(v.acc()).Keys.SignKey))
+				desc = append(desc, fmt.Sprintf("%s/%s@%d", v.Key, v.Dev, big[i+j]))
+			}
+			err, pn := k.setRaw(st, batch)
+			c.Count("evaluations", 1)
+			c.Distinct("distinct", fmt.Sprint("bigts ", n, i))
+			rep := map[string]any{"part": "bigts", "values": desc}
+			if pn != "" || err != nil {
+				c.Violation("bigts/setraw", fmt.Sprintf("SetRaw of %v: %v %s", desc, err, pn), rep)
+				continue
+			}
+			o, err := st.observe(keyNames)
+			if err != nil {
+				c.Violation("bigts/observe-error", fmt.Sprintf("%v: %v", desc, err), rep)
+				continue
+			}
+			els, hash, headAfter, err := st.reopened(w)
+			switch {
+			case err != nil:
+				c.Violation("bigts/reopen-error", fmt.Sprintf("%v: %v", desc, err), rep)
+			case !elsEqual(els, o.Els):
+				c.Violation("reopen/index-elements:big-timestamp", fmt.Sprintf("values %v: a store re-opened on the collection advertises %s, the running one %s", desc, w.elsStr(els), w.elsStr(o.Els)), rep)
+			case hash != o.Hash:
+				c.Violation("reopen/index-hash:big-timestamp", fmt.Sprintf("values %v: a store re-opened on the collection advertises hash %s, the running one %s", desc, hash, o.Hash), rep)
+			case len(headAfter) != 1 || headAfter[0] != hash:
+				c.Violation("reopen/head-entry:big-timestamp", fmt.Sprintf("values %v: after re-opening the head entry is %v, the index hash %s", desc, headAfter, hash), rep)
+			}
+		}
+	}
 }
 
 func (k *checker) partLocal() {
